@@ -109,102 +109,8 @@ def run(repo, rep):
                           'branch for %s does nothing: its content is dropped' % kk)
     rep.floor('C04.a', n_a, 33)
 
-    # ------------------------------------------------------------------ C04.b push order
-    n_b = 0
-    for name, m in ms.items():
-        dv, iv, mv = m.doc_var, m.indent_var, m.mode_var
-        for kind in ('Concat', 'Fill'):
-            if kind == 'Fill' and name == 'best_layout':
-                continue
-            b = m.branch(kind)
-            if b is None:
-                continue
-            for p in b.paths:
-                ps = p.pushes()
-                n_b += 1
-                good = (len(ps) == 1 and ps[0][4]['iter'] and ps[0][4]['reversed']
-                        and ps[0][3] == 'each(%s.docs)' % dv)
-                rep.check(good, 'C04.b', '%s:%s:reversed-children' % (name, kind), _w(m, b.lineno),
-                          'children pushed in reverse document order',
-                          'children of %s must be pushed as reversed(%s.docs) so that the '
-                          'leftmost child is popped first; found %s' % (
-                              kind, dv, [(x[3], x[4]) for x in ps] or 'no push'),
-                          nontrivial=True)
-        b = m.branch('Annotated')
-        if b is not None:
-            for p in b.paths:
-                ps = p.pushes()
-                n_b += 1
-                if name == 'best_layout':
-                    good = (len(ps) == 2
-                            and ps[0][3] == 'SAnnotationPop(%s.annotation)' % dv
-                            and ps[1][3] == '%s.doc' % dv)
-                    why = ('the pop marker must be pushed below the annotated doc (first), then '
-                           'the doc; found %s' % [x[3] for x in ps])
-                else:
-                    good = len(ps) == 1 and ps[0][3] == '%s.doc' % dv
-                    why = 'predicates must descend into the annotated doc; found %s' % [x[3] for x in ps]
-                rep.check(good, 'C04.b', '%s:Annotated:order' % name, _w(m, b.lineno),
-                          'annotation children in stack order', why, nontrivial=True)
-    # fill in best_layout
-    m = ms['best_layout']
-    b = m.branch('Fill')
-    if b is None:
-        raise AnalysisError('best_layout has no Fill branch')
-    dv = m.doc_var
-    rank = {}
-
-    def role(child):
-        c = child.replace(' ', '')
-        if c == '%s.docs[0]' % dv:
-            return 'content'
-        if c == '%s.docs[1]' % dv:
-            return 'whitespace'
-        if c == 'Fill(%s.docs[2:])' % dv:
-            return 'rest'
-        return None
-    order = {'rest': 2, 'whitespace': 1, 'content': 0}
-    for p in b.paths:
-        ps = p.pushes()
-        if p.end == 'continue' and not ps:
-            ok = any(t.replace(' ', '') in ('%s.docs' % dv, 'len(%s.docs)==0' % dv) and pol is False
-                     or t.replace(' ', '') in ('not%s.docs' % dv,) and pol
-                     for t, pol in p.conds) or \
-                any(('%s.docs' % dv) in t for t, pol in p.conds)
-            n_b += 1
-            rep.check(ok, 'C04.b', 'best_layout:Fill:empty', _w(m, b.lineno),
-                      'only an empty fill pushes nothing',
-                      'a path through the Fill branch pushes nothing although the fill is not '
-                      'known to be empty (%s)' % p.cond_text())
-            continue
-        roles = [role(x[3]) for x in ps]
-        n_b += 1
-        good = None not in roles and roles and roles[-1] == 'content' \
-            and all(order[roles[i]] > order[roles[i + 1]] for i in range(len(roles) - 1))
-        lens = [t for t, pol in p.conds if pol and t.replace(' ', '').startswith('len(%s.docs)==' % dv)]
-        if good and not lens:
-            good = roles == ['rest', 'whitespace', 'content']
-        elif good and lens:
-            k = lens[0].replace(' ', '').split('==')[1]
-            good = (k == '1' and roles == ['content']) or (k == '2' and roles == ['whitespace', 'content'])
-        rep.check(good, 'C04.b', 'best_layout:Fill:order[%s]' % p.cond_text(), _w(m, b.lineno),
-                  'fill items pushed rest < whitespace < content',
-                  'fill items must be pushed in reverse document order (rest, whitespace, '
-                  'content); found %s' % [x[3] for x in ps], nontrivial=True)
-        for x in ps:
-            if role(x[3]) == 'rest':
-                rep.check(x[1] == m.indent_var and x[2] == m.mode_var, 'C04.d',
-                          'best_layout:Fill:rest-inherits', _w(m, x[5]),
-                          'rest of a fill keeps indent and mode',
-                          'the remaining fill items are pushed with (%s, %s) instead of the '
-                          'inherited (indent, mode)' % (x[1], x[2]))
-            elif role(x[3]) in ('content', 'whitespace'):
-                rep.check(x[1] == m.indent_var and x[2] in ('FLAT_MODE', 'BREAK_MODE'), 'C04.d',
-                          'best_layout:Fill:item-mode', _w(m, x[5]),
-                          'fill item pushed flat or broken at the same indent',
-                          'fill item pushed with (%s, %s)' % (x[1], x[2]))
-    rep.floor('C04.b', n_b, 12)
-
+    # (C04.b push order and C04.d mode facts used to be read off the branch structure of the three machines; they are decided
+    # on what the machines compute - the layout model below, C04.n - since structural rewrites of those branches are common)
     # ------------------------------------------------------------------ C04.c emission facts
     m = ms['best_layout']
     iv, mv, dv = m.indent_var, m.mode_var, m.doc_var
@@ -292,92 +198,6 @@ def run(repo, rep):
                                   % ('/'.join(br.kinds), x[1]))
     rep.floor('C04.c', n_c, 20)
 
-    # ------------------------------------------------------------------ C04.d mode facts
-    n_d = 0
-    for name, mm in ms.items():
-        dvv, mvv = mm.doc_var, mm.mode_var
-        b = mm.branch('FlatChoice')
-        seen_modes = set()
-        for p in (b.paths if b else []):
-            md = _mode_of_path(p, mvv)
-            ps = p.pushes()
-            if p.end == 'raise':
-                continue
-            n_d += 1
-            if md is None:
-                rep.fail('C04.d', '%s:FlatChoice:mode-test' % name, _w(mm, b.lineno),
-                         'a path through the FlatChoice branch does not depend on the mode (%s): '
-                         'the alternative is chosen regardless of flat/break' % p.cond_text())
-                continue
-            seen_modes.add(md)
-            want = dvv + ('.when_broken' if md == 'BREAK_MODE' else '.when_flat')
-            rep.check(len(ps) == 1 and ps[0][3] == want and ps[0][2] == mvv, 'C04.d',
-                      '%s:FlatChoice:%s' % (name, md), _w(mm, b.lineno),
-                      'alternative matches the mode',
-                      'in %s the FlatChoice branch must push %s with the mode unchanged; found %s'
-                      % (md, want, [(x[2], x[3]) for x in ps]), nontrivial=True)
-        rep.check(seen_modes == {'BREAK_MODE', 'FLAT_MODE'}, 'C04.d', '%s:FlatChoice:both-modes' % name,
-                  _w(mm, b.lineno if b else mm.loop.lineno), 'both modes handled',
-                  'FlatChoice handles only %s' % sorted(seen_modes))
-        b = mm.branch('AlwaysBreak')
-        for p in (b.paths if b else []):
-            n_d += 1
-            if name == 'best_layout':
-                ps = p.pushes()
-                rep.check(len(ps) == 1 and ps[0][2] == 'BREAK_MODE' and ps[0][3] == dvv + '.doc',
-                          'C04.d', 'best_layout:AlwaysBreak:break-mode', _w(mm, b.lineno),
-                          'always_break content laid out in break mode',
-                          'AlwaysBreak must push (indent, BREAK_MODE, doc.doc); found %s'
-                          % [(x[2], x[3]) for x in ps], nontrivial=True)
-            else:
-                rets = [e for e in p.events if e[0] == 'return']
-                first = p.events[0] if p.events else None
-                rep.check(p.end == 'return' and first is not None and first[0] == 'return'
-                          and rets[0][1] == 'False', 'C04.d', '%s:AlwaysBreak:fails' % name,
-                          _w(mm, b.lineno), 'a forced break fails the fitting predicate',
-                          'meeting AlwaysBreak during look-ahead must make the predicate return '
-                          'False at once; path does %s' % [e[:2] for e in p.events], nontrivial=True)
-        b = mm.branch('Group')
-        for p in (b.paths if b else []):
-            ps = p.pushes()
-            if name != 'best_layout':
-                n_d += 1
-                rep.check(len(ps) == 1 and ps[0][2] == 'FLAT_MODE' and ps[0][3] == dvv + '.doc',
-                          'C04.d', '%s:Group:flat' % name, _w(mm, b.lineno),
-                          'nested group measured flat',
-                          'predicates must measure a nested group flat; found %s' % [(x[2], x[3]) for x in ps])
-        for br in mm.branches:
-            if set(br.kinds) & {'FlatChoice', 'AlwaysBreak', 'Group', 'Fill'}:
-                continue
-            for p in br.paths:
-                for x in p.pushes():
-                    n_d += 1
-                    rep.check(x[2] == mvv, 'C04.d', '%s:%s:mode-inherited' % (name, '/'.join(br.kinds)),
-                              _w(mm, x[5]), 'mode propagated unchanged',
-                              '%s pushes mode %s; only Group, AlwaysBreak and Fill may change the mode'
-                              % ('/'.join(br.kinds), x[2]))
-    # group in best_layout: predicate true -> FLAT, false -> BREAK, same child, same indent
-    m = ms['best_layout']
-    b = m.branch('Group')
-    for p in (b.paths if b else []):
-        ps = [x for x in p.pushes() if x[5] and True]
-        live = [x for x in p.events if x[0] == 'push']
-        n_d += 1
-        predcond = [(t, pol) for t, pol in p.conds if 'fitting_predicate' in t or 'predicate' in t or 'fit' in t]
-        if not predcond or not live:
-            rep.fail('C04.d', 'best_layout:Group:decision', _w(m, b.lineno),
-                     'group branch path %s does not push the group body under a predicate outcome' % p.cond_text())
-            continue
-        pol = predcond[-1][1]
-        want = 'FLAT_MODE' if pol else 'BREAK_MODE'
-        last = live[-1]
-        rep.check(last[2] == want and last[3] == dv + '.doc', 'C04.d',
-                  'best_layout:Group:%s' % ('fits' if pol else 'does-not-fit'), _w(m, last[5]),
-                  'group body pushed in the mode the predicate chose',
-                  'when the predicate is %s the group body must be pushed in %s; found (%s, %s)'
-                  % (pol, want, last[2], last[3]), nontrivial=True)
-    rep.floor('C04.d', n_d, 25)
-
     # ------------------------------------------------------------------ C04.e annotation pairing
     m = ms['best_layout']
     b = m.branch('Annotated')
@@ -412,6 +232,10 @@ def run(repo, rep):
                           '%s creates an annotation event outside the Annotated branch of best_layout' % f.qualname)
     rep.floor('C04.e', n_e, 4)
 
+    # C04.n: both strategies interpreted on small concrete documents at small widths: the emitted text is the rendering of the
+    # document under some assignment of flat / broken to its groups and fill separators; annotation markers are properly nested
+    from . import layoutmodel
+    rep.floor('C04.n', layoutmodel.run(repo, rep, {'C04': 'C04.n', 'ann': 'C04.e'}), 2)
     # C04.f / C04.g (and what used to be C04.k): the combinators and normalisation, interpreted on small concrete documents and
     # compared through their denotation (texts over all flat/break choices + where each flat group is measured from)
     from . import docmodel
